@@ -22,6 +22,7 @@ import (
 	"pgregory.net/rapid"
 	"verif.local/kit/refkeccak"
 	"verif.local/kit/refrlp"
+	"verif.local/kit/refsecp"
 	vs "verif.local/kit/stat"
 )
 
@@ -218,7 +219,7 @@ func c45GenKey(rt *rapid.T, label string) *ecdsa.PrivateKey {
 	} else {
 		raw := rapid.SliceOfN(rapid.Byte(), 32, 32).Draw(rt, label+"Bytes")
 		v := new(big.Int).SetBytes(raw)
-		v.Mod(v, new(big.Int).Sub(c45N, big.NewInt(1)))
+		v.Mod(v, new(big.Int).Sub(refsecp.N, big.NewInt(1)))
 		v.Add(v, big.NewInt(1))
 		d = v.FillBytes(make([]byte, 32))
 	}
@@ -478,14 +479,14 @@ func c45GenCase(rt *rapid.T) c45Case {
 		case 1:
 			copy(s[32:], make([]byte, 32))
 		case 2:
-			copy(s[:32], c45N.Bytes()) // r = n (out of range)
+			copy(s[:32], refsecp.N.Bytes()) // r = n (out of range)
 		default:
 			// s := s + n would be the same residue; only representable when it fits 32 bytes
-			v := new(big.Int).Add(new(big.Int).SetBytes(s[32:]), c45N)
+			v := new(big.Int).Add(new(big.Int).SetBytes(s[32:]), refsecp.N)
 			if v.BitLen() <= 256 {
 				v.FillBytes(s[32:])
 			} else {
-				copy(s[32:], c45N.Bytes())
+				copy(s[32:], refsecp.N.Bytes())
 			}
 		}
 		m.sig = refrlp.S(s)
@@ -596,7 +597,7 @@ func c45GenCase(rt *rapid.T) c45Case {
 		signNow(m)
 		s := append([]byte{}, m.sig.Str...)
 		sv := new(big.Int).SetBytes(s[32:])
-		sv.Sub(c45N, sv)
+		sv.Sub(refsecp.N, sv)
 		sv.FillBytes(s[32:])
 		m.sig = refrlp.S(s)
 		cs.in = refrlp.Encode(m.item())
@@ -635,7 +636,7 @@ func c45GenCase(rt *rapid.T) c45Case {
 			m.pairs[i].v = refrlp.S(o)
 		case 2: // x not on the curve / out of range
 			o := append([]byte{}, pub...)
-			copy(o[1:], c45P.Bytes())
+			copy(o[1:], refsecp.P.Bytes())
 			m.pairs[i].v = refrlp.S(o)
 		case 3: // as a list
 			m.pairs[i].v = refrlp.L(refrlp.S(pub))
